@@ -14,8 +14,8 @@ Monitor: the property statement evaluated on the real invocation log / job rows 
 import collections
 import time
 
-GEN = ['sched_defaults', 'sched_legacy_facts']
-LEAN_MODULES = ['Mistral.Props.C13', 'Mistral.Props.C13Legacy']
+GEN = ['sched_defaults', 'sched_legacy_facts', 'race_scripts']
+LEAN_MODULES = ['Mistral.Props.C13', 'Mistral.Props.C13Legacy', 'Mistral.Props.C13Race']
 MANIFEST = {
     'technique': 'Lean 4 theorems (induction over all step sequences, inductive invariants, a potential-function '
                  'argument for liveness) over DB-call-granularity models of the default scheduler protocol and of '
@@ -53,9 +53,17 @@ MANIFEST = {
             '(rows, per-instance volatile state / iteration phase, event traces, has_scheduled_jobs answers) after '
             'every step of random and (thorough, default scheduler) exhaustively enumerated interleavings; the '
             'comparison operators, the CAS filters, the 1-second slack of the legacy select and the invoke-before-'
-            'delete order are re-read from the sources on every run (Tie A).',
+            'delete order are re-read from the sources on every run (Tie A). STATEMENT GRANULARITY (docs/RACE.md): the '
+            'script of the first capture (_process_store_jobs: candidate read with captured_at IS NULL, '
+            '_capture_scheduled_job -> update_scheduled_job = update_on_match on the captured_at READ) is REGENERATED by '
+            'translate/race_scripts.py; Props.C13Race for ALL interference: capture_atomic (captured exactly when the row was '
+            'an uncaptured candidate at the read and still shows the read value at the instant of the compare-and-swap), '
+            'one_capturer (any number of schedulers holding the same copy: at most one captures); tie: race-capture stream '
+            '(2-3 real capture passes nested at SQL-statement gaps vs Mistral.Race.runMany).',
     'note': 'DB semantics are modelled (transaction atomic, READ COMMITTED visibility emulated by the harness, '
-            'update_on_match is a CAS); whole-second integer clock and integer pickup/timeout only (sub-second '
+            'update_on_match is a CAS); inside the capture transaction the read / compare-and-swap interleaving of the '
+            'FIRST capture is exhibited at SQL-statement granularity (Mistral.Race); the recapture of an expired stamp '
+            '(time comparison), the delete after invocation and the legacy scheduler are at DB-call granularity only; whole-second integer clock and integer pickup/timeout only (sub-second '
             'truncation outside the model); eventual invocation is proved for batch_size=None (the default) and its '
             'fairness hypothesis (complete passes of live instances) is an assumption about the thread scheduler, '
             'exercised on the real code by the closing phase of every case only; DB errors / retry_on_db_error, '
@@ -107,6 +115,8 @@ PHANTOM = 'has-scheduled-jobs-reports-job-that-is-not-pending'
 
 def mstep(step):
     """model encoding of a harness step (the commit/rollback fate is harness-only)"""
+    if step[0] == 'crash':
+        return list(step[:2])          # kill -9 or exception unwinding: the same model step
     return list(step[:5]) if step[0] == 'schedule' else list(step)
 
 
@@ -396,7 +406,7 @@ def choose_step(rng, r, max_jobs, next_tx):
         cand.append((1.0 if inst.poll is None else 0.15, ['pollSelect', i]))
         cand.append((4.0 if inst.poll and inst.poll[0] == 'selected' else 0.1, ['pollCapture', i]))
         cand.append((4.0 if inst.poll and inst.poll[0] == 'running' else 0.1, ['pollNext', i]))
-        cand.append((0.12, ['crash', i]))
+        cand.append((0.12, ['crash', i] if rng.random() < 0.5 else ['crash', i, 1]))
     tot = sum(c[0] for c in cand)
     x = rng.random() * tot
     for wgt, st in cand:
@@ -561,6 +571,16 @@ CORPUS = [
     {'cfg': {'pickup': 2, 'timeout': 3, 'batch': None}, 'n': 2,
      'steps': [['schedule', 0, 1, 1, 0, 'commit'], ['commit', 0], ['tick', 1], ['pop', 0], ['task', 0, 0],
                ['crash', 0], ['tick', 4], ['pollSelect', 1], ['pollCapture', 1], ['pollNext', 1], ['pollNext', 1]]},
+    # the same crash as exception unwinding (SystemExit / GreenletExit: the finally clauses of the dying worker
+    # run for real): the captured row must survive, another instance recovers it after the capture timeout
+    {'cfg': {'pickup': 2, 'timeout': 3, 'batch': None}, 'n': 2,
+     'steps': [['schedule', 0, 1, 1, 0, 'commit'], ['commit', 0], ['tick', 1], ['pop', 0], ['task', 0, 0],
+               ['crash', 0, 1], ['tick', 4], ['pollSelect', 1], ['pollCapture', 1], ['pollNext', 1], ['pollNext', 1]]},
+    # ... and unwinding out of the store-poll loop of the instance that captured it
+    {'cfg': {'pickup': 1, 'timeout': 2, 'batch': None}, 'n': 3,
+     'steps': [['schedule', 0, 0, 1, 0, 'commit'], ['commit', 0], ['crash', 0], ['tick', 2], ['pollSelect', 1],
+               ['pollCapture', 1], ['crash', 1, 1], ['tick', 3], ['pollSelect', 2], ['pollCapture', 2],
+               ['pollNext', 2], ['pollNext', 2]]},
     # two pollers select the same job, only one CAS wins
     {'cfg': {'pickup': 1, 'timeout': 2, 'batch': None}, 'n': 3,
      'steps': [['schedule', 0, 0, 1, 0, 'commit'], ['commit', 0], ['crash', 0], ['tick', 2], ['pollSelect', 1],
@@ -613,6 +633,9 @@ def correspond(ctx):
     ctx.count('sched', 'sequences', done)
     from harness import sched_legacy
     sched_legacy.correspond(ctx)
+    # statement granularity: 2-3 real capture passes nested at SQL-statement gaps (own process: EngineWorld)
+    from vlib import par
+    par.run_parallel(ctx, 'harness.race_driver', 'run_chunk', [{'family': 'capture'}])
     if ctx.thorough():
         deadline = time.time() + 13 * 60
         per = (deadline - time.time()) / len(EXH)
@@ -627,6 +650,10 @@ def search(ctx):
     interleavings are enumerated exhaustively and more random sequences are run."""
     t0 = time.time()
     before = len(ctx.violations)
+    from vlib import par
+    par.run_parallel(ctx, 'harness.race_driver', 'run_chunk', [{'family': 'capture'}])
+    if len(ctx.violations) > before:
+        return
     small = dict(EXH[0], depth=9, max_runs=1500, name='search-2inst-1job')
     exhaustive(ctx, small, time.time() + 60, stream='search')
     if len(ctx.violations) > before:
@@ -650,6 +677,13 @@ def search(ctx):
 
 def replay(ctx, rep):
     r = rep['replay']
+    if r.get('kind') == 'race':
+        from harness import race_driver
+        n0 = len(ctx.violations)
+        race_driver.run_chunk(ctx, 'capture')
+        print('replay: race-capture stream -> %d hit(s); recorded: %s' % (
+            len(ctx.violations) - n0, {k: r[k] for k in r if k != 'real'}))
+        return
     if r.get('kind') == 'legacy':
         from harness import sched_legacy
         return sched_legacy.replay(ctx, rep)
